@@ -7,6 +7,7 @@ Flow: translator (gen/gen_c18.py: Lean tables + C++ leaf walkers, from the worki
 the generated tables) on the same op lines → monitors (the property restated in Python, from the
 struct *definitions* only — never from the PARAMS tables or the model).
 """
+import collections
 import math
 import os
 import re
@@ -29,7 +30,20 @@ LEAF_TOPS = {
     'i64': ('int', -2 ** 63, 2 ** 63 - 1), 'u64': ('int', 0, 2 ** 64 - 1),
     'ns': ('dur', 1), 'us': ('dur', 10 ** 3), 'ms': ('dur', 10 ** 6), 's': ('dur', 10 ** 9),
     'min': ('dur', 60 * 10 ** 9), 'h': ('dur', 3600 * 10 ** 9), 'vec': ('vec',),
+    # params::vec_from_file with expected_size -1 (any size) / 2; flavour D: value disengaged, P: [1.5, 2.5]
+    'vff': ('vff', -1), 'vff2': ('vff', 2),
 }
+VFF_KEY = 'C18-vec_from_file-half-write'
+
+# ---------------------------------------------------------------- bookkeeping shared by monitor and extra_stage
+COVER = set()                            # classes the monitor actually decided in this run
+EXEMPT = collections.Counter()           # narrowed exemptions, by reason
+FILL = {'on': False}                     # coverage is recorded for the primary run only (not the search runs)
+
+
+def cover(*key):
+    if FILL['on']:
+        COVER.add(key)
 UNITS = {'h': 3600 * 10 ** 9, 'min': 60 * 10 ** 9, 's': 10 ** 9, '': 10 ** 9, 'ms': 10 ** 6,
          'us': 10 ** 3, 'µs': 10 ** 3, 'ns': 1}          # SI, what the documentation promises
 
@@ -134,6 +148,32 @@ def tok_real(v):
     return 'r' + C.f2h(v)
 
 
+def csv_first_row_tokens(content):
+    """What the CSV reader is documented to hand to from_chars for the files this check writes:
+    the fields of the first line, separated by ','.  (Reader details — comments, trailing
+    separators, line ends — are property C17 and are not generated here.)"""
+    line = content.split('\n')[0]
+    return line.split(',') if line != '' else []
+
+
+def parse_op(op):
+    t = op.split()
+    top, fl, n = t[1], t[2], int(t[3])
+    pre = [(unhx(t[4 + 2 * i]), t[5 + 2 * i]) for i in range(n)]
+    p = 4 + 2 * n
+    prefix = unhx(t[p]); k = int(t[p + 1])
+    opts = [unhx(x) for x in t[p + 2:p + 2 + k]]
+    q = p + 2 + k
+    files = {}
+    if q < len(t):
+        m = int(t[q]); q += 1 + 2 * m
+        if q < len(t):
+            f = int(t[q]); q += 1
+            for i in range(f):
+                files[unhx(t[q + 3 * i])] = unhx(t[q + 3 * i + 1])
+    return top, fl, pre, prefix, opts, files
+
+
 # ---------------------------------------------------------------- op construction
 
 class Ctx:
@@ -141,7 +181,8 @@ class Ctx:
         self.meta = meta
         self.pre = pre            # (top, flavour) -> [(path, tok)]
 
-    def op(self, top, flavour, prefix, opts):
+    def op(self, top, flavour, prefix, opts, files=()):
+        """files: (name, content) pairs created for the op (`@name`); anything else does not exist"""
         pre = self.pre[(top, flavour)]
         li = self.meta.leafinfo[top]
         need = []
@@ -156,13 +197,19 @@ class Ctx:
                 continue
             if k[0] == 'real':
                 pass
-            elif k[0] == 'vec':
+            elif k[0] in ('vec', 'vff'):
                 need += val.split(',')
             elif k[0] == 'dur':
                 need += [val[i:] for i in range(len(val))]
+        fsec = []
+        for name, content in files:
+            toks = csv_first_row_tokens(content)
+            need += toks
+            fsec.append(f'{hx(name)} {hx(content)} row:' + ','.join(hx(t) for t in toks))
         orc = oracle_entries(need)
         return ' '.join(['set', top, flavour, str(len(pre))] + [f'{hx(p)} {v}' for p, v in pre] +
-                        [hx(prefix), str(len(opts))] + [hx(o) for o in opts] + [str(len(orc))] + orc)
+                        [hx(prefix), str(len(opts))] + [hx(o) for o in opts] + [str(len(orc))] + orc +
+                        [str(len(fsec))] + fsec)
 
 
 def rnd_real_text(rng):
@@ -199,7 +246,7 @@ def rnd_int_text(rng, lo, hi):
     return s
 
 
-DUR_NUMS = ['1', '2', '5', '30', '90', '500', '1500', '2500', '1.5', '2.5', '0.5', '0.25', '12.5', '1e3', '1e-3',
+DUR_NUMS = ['0', '1', '2', '5', '30', '90', '500', '1500', '2500', '1.5', '2.5', '0.5', '0.25', '12.5', '1e3', '1e-3',
             '501', '499', '3', '7', '10', '100', '1234', '0.001', '60', '2.5e2', '-1', '-1.5', '-2.5']
 
 
@@ -208,8 +255,6 @@ def rnd_dur_text(rng, zero_ok=False):
     parts = []
     for i in range(n):
         num = rng.choice(DUR_NUMS) if rng.random() < 0.8 else repr(round(rng.random() * 10 ** rng.randint(0, 4), rng.randint(0, 6)))
-        if num.lstrip('-')[0] == '0' and not num.lstrip('-').startswith('0.'):
-            num = '1' + num
         unit = rng.choice(['h', 'min', 's', 'ms', 'us', 'µs', 'ns'] + ([''] if i == n - 1 else []))
         parts.append(num + unit)
     sep = rng.choice(['', ' ', '+', '  '])
@@ -243,6 +288,9 @@ def valid_value(rng, meta, kind):
         return rnd_dur_text(rng)
     if kind[0] == 'vec':
         return ','.join(rnd_real_text(rng) for _ in range(rng.randint(1, 4)))
+    if kind[0] == 'vff':
+        n = kind[1] if kind[1] >= 0 else rng.randint(1, 4)
+        return ','.join(rnd_real_text(rng) for _ in range(n))
     return '1'
 
 
@@ -264,6 +312,9 @@ def malformed_values(rng, meta, kind):
         return list(DUR_BAD)
     if kind[0] == 'vec':
         return ['1,2,x', '', '1,,2', '1,2,', '1.5x', '1e999,2', '3,1e999', 'a,b']
+    if kind[0] == 'vff':
+        return ['3,x', '', '1,,2', '1,2,', '1.5x,2', '1e999,2', 'a,b', '@', '@nofile.csv'] + \
+               (['4,5,6', '4', '1,2,3,4'] if kind[1] >= 0 else [])
     return []
 
 
@@ -307,6 +358,45 @@ def gen_ops_factory(meta, ctx):
                                               f'solver={val}x' if path else f'solver.sub={val}',
                                               f'{sk}={val}']))
         ops.append(ctx.op(top, fl, 'solverx', [f'{sk}={val}', f'solverx{key[1:]}={val}', f'solverxx{key[1:]}={val}']))
+        # an exception after options that were applied: state = effect of the options before it
+        if bad:
+            ops.append(ctx.op(top, fl, 'p', [f'{key}={val}', f'{key}={bad[0]}', f'{key}={val}']))
+        if kind[0] == 'vff':
+            ops += vff_ops(rng, top, kind, key)
+        return ops
+
+    def vff_ops(rng, top, kind, key):
+        """vec_from_file: the `@file` form (file contents travel in the op) and the fixed corpus
+        that reproduces the open finding C18-vec_from_file-half-write (direct form)."""
+        ops = []
+        n = kind[1] if kind[1] >= 0 else 3
+        good = ','.join(str(7 + i) for i in range(n)) + '\n'
+        for fl in 'DP':
+            # direct form, fixed corpus (half-write reproducer: rejected element / wrong size)
+            ops.append(ctx.op(top, fl, 'p', [f'{key}=3,x']))
+            ops.append(ctx.op(top, fl, 'p', [f'{key}=' + ','.join('456'[:n])]))
+            if kind[1] >= 0:
+                ops.append(ctx.op(top, fl, 'p', [f'{key}=4,5,6']))
+                ops.append(ctx.op(top, fl, 'p', [f'{key}=1,2', f'{key}=4,5,6', f'{key}=8,9']))
+            ops.append(ctx.op(top, fl, 'p', [f'{key}=1,2', f'{key}=3,x', f'{key}=8,9']))
+            # @file form
+            ops.append(ctx.op(top, fl, 'p', [f'{key}=@row.csv'], [('row.csv', good)]))
+            ops.append(ctx.op(top, fl, 'p', [f'{key}=@row.csv'], [('row.csv', good + '1,2\n')]))
+            ops.append(ctx.op(top, fl, 'p', [f'{key}=@row.csv'], [('row.csv', good.rstrip('\n'))]))
+            ops.append(ctx.op(top, fl, 'p', [f'{key}=@nofile.csv'], [('row.csv', good)]))
+            ops.append(ctx.op(top, fl, 'p', [f'{key}=@row.csv'], [('row.csv', '7,x\n')]))
+            ops.append(ctx.op(top, fl, 'p', [f'{key}=@row.csv'], [('row.csv', '7;8\n')]))
+            ops.append(ctx.op(top, fl, 'p', [f'{key}=@row.csv'], [('row.csv', '1e999,2\n')]))
+            ops.append(ctx.op(top, fl, 'p', [f'{key}=@row.csv'], [('row.csv', ' 7, 8\n')]))
+            if kind[1] >= 0:
+                ops.append(ctx.op(top, fl, 'p', [f'{key}=@row.csv'], [('row.csv', good.rstrip('\n') + ',9\n')]))
+                ops.append(ctx.op(top, fl, 'p', [f'{key}=@row.csv'], [('row.csv', '7\n')]))
+            ops.append(ctx.op(top, fl, 'p', [f'{key}=@a.csv', f'{key}=@b.csv', f'{key}=@c.csv'],
+                              [('a.csv', good), ('b.csv', '1,x\n')]))
+            for _ in range(4):
+                m = rng.randint(1, 4)
+                row = ','.join(rnd_real_text(rng) for _ in range(m))
+                ops.append(ctx.op(top, fl, 'p', [f'{key}=@r.csv'], [('r.csv', row + '\n')]))
         return ops
 
     def gen_ops(rng, n):
@@ -393,89 +483,151 @@ def spec_real(val):
     return r[1] if r[0] == 'ok' and r[2] == 0 else None
 
 
+class Spec:
+    """What the property demands for one option value.
+    ok=True: `tokens` = acceptable dumps of the addressed leaf after the option; `may_reject` =
+    None, or the name of the one aspect the property text leaves open (then an exception is
+    acceptable too — everything else about the op is still checked).  ok=False: must throw (`why`)."""
+
+    def __init__(self, ok, tokens=None, why=None, info=None, may_reject=None, notes=()):
+        self.ok, self.tokens, self.why, self.info, self.may_reject = ok, tokens, why, info, may_reject
+        self.notes = list(notes)
+
+
+def bad(why):
+    return Spec(False, why=why)
+
+
 def spec_duration(val, res):
     """Documented meaning: components <number><unit> (unit optional = s), separated by optional
-    blanks or '+', summed, rounded to the resolution.  Returns ('ok', {acceptable counts}) |
-    ('bad', why) | ('amb',)."""
-    if val.strip(' +') == '' and val != '':
-        return ('amb',)
-    if val == '':
-        return ('amb',)                     # empty duration: the property does not say
+    blanks or '+', summed, each rounded to the resolution."""
+    if val.strip(' +') == '':
+        # no component at all ("" or only separators): the property text does not say whether an
+        # empty duration is an error; if it is accepted it is the empty sum
+        # (Props/C18.lean `parse_duration_sum_round` with `DurComps.done`: result 0)
+        return Spec(True, {'d0'}, may_reject='empty-duration')
     pos, comps = 0, []
     while pos < len(val):
         if val[pos:].strip(' +') == '':
             break
         m = RE_DUR_COMP.match(val, pos)
         if not m or m.end() == pos:
-            return ('bad', 'syntax')
+            return bad('syntax')
         comps.append((m.group(1), m.group(2)))
         pos = m.end()
     lo, hi, tot_sum = 0, 0, Fr(0)
+    notes = ['dur-multi-component'] if len(comps) >= 2 else ['dur-single-component']
     for num, unit in comps:
         r = from_chars_real(num)
         if r[0] != 'ok' or r[2] != 0:
-            return ('bad', 'range')
+            return bad('range')
         if not math.isfinite(r[1]):
-            return ('bad', 'nonfinite')
+            return bad('nonfinite')
         x = Fr(r[1]) * UNITS[unit] / res
         if abs(x) >= 2 ** 63:
-            return ('bad', 'overflow')
+            return bad('overflow')
         tot_sum += x
+        if x - math.floor(x) == Fr(1, 2):
+            notes.append('dur-tie')
         if Fr(float(x)) == x:
             # the binary64 product / quotient is exact: nearest, ties to even, no tolerance
             t = round_half_even(x)
             lo += t; hi += t
+            notes.append('dur-exact-product')
         else:
-            # the code rounds v·unit/res to binary64 first: allow two ulps of that product
+            # the code rounds v·unit/res to binary64 before rounding to an integer: the integer may
+            # differ from round(x) when x is within that rounding error of a tie.  Tolerance from the
+            # exact operand x only (two ulps of x), never from the code's output.
             tol = Fr(2 * math.ulp(float(x)))
-            lo += math.ceil(x - Fr(1, 2) - tol); hi += math.floor(x + Fr(1, 2) + tol)
+            l, h = math.ceil(x - Fr(1, 2) - tol), math.floor(x + Fr(1, 2) + tol)
+            if (l, h) != (round_half_even(x), round_half_even(x)):
+                notes.append('exempt:dur-inexact-product-near-tie')
+            lo += l; hi += h
+            notes.append('dur-inexact-product')
     ok = set(range(lo, hi + 1)) | {round_half_even(tot_sum)}
     if any(abs(t) >= 2 ** 63 for t in ok):
-        return ('bad', 'overflow')
-    return ('ok', ok, comps)
+        return bad('overflow')
+    return Spec(True, {f'd{t}' for t in ok}, info=comps, notes=notes)
 
 
-def spec_leaf(meta, kind, val):
-    """('ok', set of acceptable tokens) | ('bad', why) | ('amb',)"""
+def vec_token(vs):
+    return f'v{len(vs)}:' + ','.join(C.f2h(v) for v in vs) if vs else 'v0'
+
+
+def spec_leaf(meta, kind, val, files=None):
     if kind[0] == 'bool':
         if val in ('0', 'false'):
-            return ('ok', {'b0'})
+            return Spec(True, {'b0'})
         if val in ('1', 'true'):
-            return ('ok', {'b1'})
-        return ('bad', 'bool')
+            return Spec(True, {'b1'})
+        return bad('bool')
     if kind[0] == 'int':
         if not re.fullmatch(r'-?\d+', val) or (val.startswith('-') and kind[1] >= 0):
-            return ('bad', 'int syntax')
+            return bad('int syntax')
         v = int(val)
         if v < kind[1] or v > kind[2]:
-            return ('bad', 'int range')
-        return ('ok', {f'i{v}'})
+            return bad('int range')
+        return Spec(True, {f'i{v}'})
     if kind[0] == 'real':
         v = spec_real(val)
         if v is None:
-            return ('bad', 'real')
-        return ('ok', {tok_real(v)})
+            return bad('real')
+        return Spec(True, {tok_real(v)})
     if kind[0] == 'enum':
         for n, v, dep in meta.enumerators(kind[1]):
             if n == val:
-                return ('amb',) if dep else ('ok', {f'e{v}'}, f'{kind[1]}::{n}')
-        return ('bad', 'enumerator')
+                # a [[deprecated]] enumerator is an alias of a listed one and need not be in the
+                # ENUM_TABLE (Props/C18.lean `enumerators_covered`): accepted with the alias's value, or rejected
+                return Spec(True, {f'e{v}'}, info=f'{kind[1]}::{n}',
+                            may_reject='deprecated-enumerator' if dep else None)
+        return bad('enumerator')
     if kind[0] == 'localenum':
         for n, v, dep in kind[2]:
             if n == val:
-                return ('ok', {f'e{v}'}, kind[1])
-        return ('bad', 'enumerator')
+                return Spec(True, {f'e{v}'}, info=kind[1])
+        return bad('enumerator')
     if kind[0] == 'dur':
-        r = spec_duration(val, kind[1])
-        if r[0] == 'ok':
-            return ('ok', {f'd{t}' for t in r[1]}, r[2])
-        return r
+        return spec_duration(val, kind[1])
     if kind[0] == 'vec':
         vs = [spec_real(p) for p in val.split(',')]
         if any(v is None for v in vs):
-            return ('bad', 'vec element')
-        return ('ok', {f'v{len(vs)}:' + ','.join(C.f2h(v) for v in vs)})
-    return ('amb',)
+            return bad('vec element')
+        return Spec(True, {vec_token(vs)}, notes=['vec-multi-element'] if len(vs) >= 2 else [])
+    if kind[0] == 'vff':
+        exp = kind[1]
+        if val.startswith('@'):
+            name = val[1:]
+            if files is None or name not in files:
+                return bad('file missing')
+            vs = [spec_real(t) for t in csv_first_row_tokens(files[name])]
+            if any(v is None for v in vs):
+                return bad('file row')
+            if exp >= 0 and len(vs) != exp:
+                return bad('file size')
+            return Spec(True, {'o' + vec_token(vs)}, notes=['vff-file-ok'])
+        vs = [spec_real(p) for p in val.split(',')]
+        if any(v is None for v in vs):
+            return bad('vec element')
+        if exp >= 0 and len(vs) != exp:
+            return bad('size')
+        return Spec(True, {'o' + vec_token(vs)}, notes=['vff-direct-ok'])
+    # a member whose type has no set_param: no option string can be well-formed for it
+    return bad('member type without a setter')
+
+
+SCALAR_KINDS = ('bool', 'int', 'real', 'enum', 'localenum', 'dur', 'vff')
+
+
+def prefix_class(pfx, prefix):
+    if pfx == '':
+        return 'empty-first-component'
+    if prefix != '' and pfx.startswith(prefix):
+        return 'proper-extension'
+    if prefix.startswith(pfx):
+        return 'proper-prefix'
+    if pfx.lower() == prefix.lower():
+        return 'case-variant'
+    return 'unrelated'
 
 
 class Monitor:
@@ -493,18 +645,50 @@ class Monitor:
             seen.add(r[1])
         return r
 
+    def resolve(self, top, rest):
+        """(leaf path, kind, aspect left open by the property | None) for a key remainder, or None."""
+        li = self.meta.leafinfo[top]
+        if rest in li:
+            return rest, li[rest], None
+        if top == 'vec':
+            # set_param(vec&) has no assert_key_empty; the property lists "indexing into scalars"
+            # only, a vec is not a scalar: a sub-key of a vec may be ignored or rejected
+            return '', li[''], 'vec-subkey'
+        if rest.endswith('.') and rest[:-1] in li:
+            # `field.=v`: split_key gives the same (key, "") as `field=v`; the property does not say
+            # whether the trailing delimiter is an error
+            return rest[:-1], li[rest[:-1]], 'empty-subkey'
+        return None
+
+    def classify_unknown(self, top, rest):
+        """coverage class of a key that addresses nothing"""
+        li = self.meta.leafinfo[top]
+        comps = rest.split('.')
+        for j in range(len(comps) - 1, -1, -1):
+            head = '.'.join(comps[:j])
+            if rest != '' and head in li and li[head][0] in SCALAR_KINDS:
+                cover(top, head, 'indexed')
+                return
+        if top in self.meta.tops:
+            holder = '.'.join(comps[:-1])
+            sname = self_struct(self.meta, top, holder + '.' if holder else '')
+            for t, ents in self.meta.d['aliases']:
+                if t == sname and comps[-1] in [a for a, _ in ents]:
+                    cover('alias', t, comps[-1])
+            if rest in self.meta.nodes[top] or (comps[0] != '' and '.'.join(comps[:-1]) in self.meta.nodes[top]
+                                               and rest not in li):
+                cover('struct-node', 'as-leaf-or-unknown-member')
+        cover(top, '', 'unknown-key')
+
     def check(self, op, out):
-        t = op.split()
-        if t[0] != 'set':
+        if op.split()[0] != 'set':
+            EXEMPT['not-a-set-op (generator fallback when the translator failed)'] += 1
             return None
-        top, fl, n = t[1], t[2], int(t[3])
-        pre = [(unhx(t[4 + 2 * i]), t[5 + 2 * i]) for i in range(n)]
-        p = 4 + 2 * n
-        prefix = unhx(t[p]); k = int(t[p + 1])
-        opts = [unhx(x) for x in t[p + 2:p + 2 + k]]
+        top, fl, pre, prefix, opts, files = parse_op(op)
+        n, k = len(pre), len(opts)
         o = out.split()
-        if o[0] in ('pre-mismatch', 'bad-op', 'harness-exception', 'parse-error'):
-            return f'harness could not run the op: {o[0]}'
+        if not o or o[0] in ('pre-mismatch', 'bad-op', 'harness-exception', 'parse-error'):
+            return f'harness could not run the op: {o[0] if o else "<no output>"}'
         status, used_s, m = o[0], o[1], int(o[2])
         post = o[3:3 + m]
         if m != n:
@@ -512,36 +696,56 @@ class Monitor:
         used = [] if used_s == '-' else [int(x) for x in used_s.split(',')]
         if len(used) != k:
             return 'used vector has the wrong length'
-        li = self.meta.leafinfo[top]
         paths = [q for q, _ in pre]
         exp = {q: {v} for q, v in pre}            # path -> set of acceptable tokens
         exp_used = [0] * k
-        expect_exc = None                          # (index, why, kind) of the option that must throw
+        expect_exc = None                          # (index, why, kind, value, open aspect)
+        applied = 0
+        pending_cover = []
         # the option the real code threw on: `used` is incremented just before `set_param`
         real_exc = max([i for i, u in enumerate(used) if u], default=None) if status != 'ok' else None
         for i, kv in enumerate(opts):
             key, _, val = kv.partition('=')
             pfx, _, rest = key.partition('.')
             if pfx != prefix:
+                pending_cover.append(('prefix', prefix_class(pfx, prefix)))
                 continue                           # different prefix: ignored, not counted
+            pending_cover.append(('prefix', 'match'))
             exp_used[i] = 1
-            kind = li.get(rest)
-            if kind is None:
-                if top == 'vec':
-                    return None                    # sub-key of a vec: the property does not say
-                if rest.endswith('.') and rest[:-1] in li:
-                    return None                    # empty sub-key `field.=v`: the property does not say
-                expect_exc = (i, f'key {rest!r} is not a documented field of {top}', None)
+            res = self.resolve(top, rest)
+            if res is None:
+                self.classify_unknown(top, rest)
+                expect_exc = (i, f'key {rest!r} is not a documented field of {top}', None, val, None)
                 break
-            sp = spec_leaf(self.meta, kind, val)
-            if sp[0] == 'amb':
-                return None
-            if sp[0] == 'bad':
-                expect_exc = (i, f'value {val!r} is malformed for {rest!r} ({sp[1]})', kind)
+            path, kind, open_key = res
+            sp = spec_leaf(self.meta, kind, val, files)
+            if not sp.ok:
+                pending_cover.append((top, path, 'malformed:' + sp.why))
+                expect_exc = (i, f'value {val!r} is malformed for {rest!r} ({sp.why})', kind, val, None)
                 break
-            if real_exc == i and used[:i + 1] == exp_used[:i + 1]:
+            open_aspect = sp.may_reject or open_key
+            threw_here = real_exc == i and used[:i + 1] == exp_used[:i + 1]
+            if threw_here and not open_aspect:
                 return self.rejected_valid(top, rest, kind, val, sp, status, pre, post, paths)
-            exp[rest] = sp[1]
+            if threw_here:
+                EXEMPT[f'{open_aspect}: rejected (accept-or-reject left open by the property text; '
+                       f'used counts, frame and no-half-write still checked)'] += 1
+                expect_exc = (i, f'{open_aspect}', kind, val, open_aspect)
+                break
+            if open_aspect:
+                EXEMPT[f'{open_aspect}: accepted (value, used counts and frame still checked)'] += 1
+            for note in sp.notes:
+                if note.startswith('exempt:'):
+                    EXEMPT[note[7:] + ' (value set widened by two ulps of the exact product v·unit/res)'] += 1
+                else:
+                    pending_cover.append(('class', note))
+            pending_cover.append((top, path, 'valid'))
+            if kind[0] == 'enum' and sp.info:
+                pending_cover.append(('enumerator', sp.info))
+            if kind[0] == 'vff':
+                pending_cover.append(('vff', sp.notes[0] + ('-from-engaged' if dict(pre)[''] != 'on' else '-from-disengaged')))
+            exp[path] = sp.tokens
+            applied += 1
         if used != exp_used:
             return f'used counts {used} but the options with prefix {prefix!r} are {exp_used}'
         if expect_exc is None:
@@ -549,17 +753,21 @@ class Monitor:
                 return f'every option is well-formed but set_params threw {status}'
             for j, q in enumerate(paths):
                 if post[j] not in exp[q]:
-                    if q in [x.partition('=')[0].partition('.')[2] for x in opts]:
-                        kind = li.get(q)
+                    if q in [x.partition('=')[0].partition('.')[2].rstrip('.') for x in opts] or top == 'vec':
+                        kind = self.meta.leafinfo[top].get(q)
                         return self.wrong_value(top, q, kind, opts, post[j], exp[q])
                     return f'leaf {q!r} changed to {post[j]} although no option addresses it (was {dict(pre)[q]})'
+            for c in pending_cover:
+                cover(*c)
+            if applied >= 2:
+                cover('class', 'multi-option-all-applied')
             return None
-        i, why, kind = expect_exc
+        i, why, kind, val, open_aspect = expect_exc
         if status == 'ok':
             key = None
             kv = opts[i]
-            val = kv.partition('=')[2]
-            if kind and kind[0] == 'dur' and spec_duration(val, kind[1]) in (('bad', 'overflow'), ('bad', 'nonfinite')):
+            if kind and kind[0] == 'dur' and not spec_duration(val, kind[1]).ok and \
+                    spec_duration(val, kind[1]).why in ('overflow', 'nonfinite'):
                 key = 'C18:duration-overflow-accepted'
             msg = f'option {kv!r} accepted although {why}'
             return (msg, key) if key else msg
@@ -568,33 +776,95 @@ class Monitor:
             if post[j] not in exp[q]:
                 rest = opts[i].partition('=')[0].partition('.')[2]
                 key = None
-                if q == rest and kind:
+                if q == rest.rstrip('.') and kind:
                     if kind[0] in ('int', 'real') and status == 'exc:numSuffix':
                         key = 'C18:half-write:numeric-suffix'
                     elif kind[0] == 'dur' and status in ('exc:durValue', 'exc:durUnits'):
                         key = 'C18:half-write:duration'
                     elif kind[0] == 'vec':
                         key = 'C18:half-write:vec'
+                    elif kind[0] == 'vff' and not val.startswith('@') and \
+                            status in ('exc:numInvalid', 'exc:numRange', 'exc:numSuffix', 'exc:badSize'):
+                        # direct form only: the optional is engaged / overwritten before the checks
+                        key = VFF_KEY
+                        for c in pending_cover:
+                            cover(*c)
+                        cover('vff', ('direct-bad-size' if status == 'exc:badSize' else 'direct-bad-element') +
+                              ('-from-engaged' if dict(pre)[''] != 'on' else '-from-disengaged'))
                 msg = (f'option {opts[i]!r} rejected ({status}) but leaf {q!r} was left as {post[j]} '
                        f'(before the option: {sorted(exp[q])})')
                 return (msg, key) if key else msg
+        for c in pending_cover:
+            cover(*c)
+        if kind and kind[0] == 'vff':
+            cls = {'file missing': 'file-missing', 'file row': 'file-bad-row', 'file size': 'file-bad-size',
+                   'size': 'direct-bad-size', 'vec element': 'direct-bad-element'}
+            sp = spec_leaf(self.meta, kind, val, files)
+            if not sp.ok and sp.why in cls:
+                cover('vff', cls[sp.why] + ('-from-engaged' if dict(pre)[''] != 'on' else '-from-disengaged'))
+        if applied >= 1:
+            cover('class', 'throw-after-applied-options')
         return None
 
     def rejected_valid(self, top, rest, kind, val, sp, status, pre, post, paths):
         key = None
         if kind[0] == 'enum' and status == 'exc:badEnum':
-            key = 'C18:enum-table-missing:' + sp[2]
+            key = 'C18:enum-table-missing:' + sp.info
         elif kind[0] == 'localenum' and status == 'exc:invalidKey':
-            key = 'C18:field-not-settable:' + sp[2]
+            key = 'C18:field-not-settable:' + sp.info
         elif kind[0] == 'dur' and status == 'exc:durValue':
             # a component whose number is written with zeros only, followed by a unit
-            if any(re.fullmatch(r'0+', num) and unit for num, unit in sp[2]):
+            if any(re.fullmatch(r'0+', num) and unit for num, unit in (sp.info or [])):
                 key = 'C18:duration-zero-component-rejected'
         msg = f'documented option {rest!r}={val!r} of {top} rejected with {status}'
         return (msg, key) if key else msg
 
     def wrong_value(self, top, q, kind, opts, got, want):
         return f'leaf {q!r} of {top} holds {got} after {opts!r}; the parsed value is {sorted(want)}'
+
+
+MALFORMED_CLASSES = {
+    'bool': ['bool'], 'int': ['int syntax', 'int range'], 'real': ['real'], 'enum': ['enumerator'],
+    'localenum': ['enumerator'], 'dur': ['syntax', 'range', 'nonfinite', 'overflow'], 'vec': ['vec element'],
+    'vff': ['vec element', 'file missing', 'file row'],
+}
+
+
+def required_coverage(meta):
+    """Classes every run must have exercised *and the monitor must have decided* (the property's
+    quantifier: all parameter structures and fields registered in the attribute tables, all
+    representable value kinds, all malformed variants of keys and values)."""
+    req = set()
+    for top in meta.tops + meta.enum_tops + list(LEAF_TOPS):
+        for path, kind in meta.leafinfo[top].items():
+            req.add((top, path, 'valid'))
+            for c in MALFORMED_CLASSES.get(kind[0], []):
+                req.add((top, path, 'malformed:' + c))
+            if kind[0] == 'vff' and kind[1] >= 0:
+                req.add((top, path, 'malformed:size'))
+                req.add((top, path, 'malformed:file size'))
+            if kind[0] in SCALAR_KINDS:
+                req.add((top, path, 'indexed'))
+        if top in meta.tops:
+            req.add((top, '', 'unknown-key'))
+    for c in ('match', 'proper-extension', 'proper-prefix', 'empty-first-component', 'case-variant', 'unrelated'):
+        req.add(('prefix', c))
+    for c in ('dur-multi-component', 'dur-single-component', 'dur-tie', 'dur-exact-product', 'dur-inexact-product',
+              'vec-multi-element', 'multi-option-all-applied', 'throw-after-applied-options'):
+        req.add(('class', c))
+    for e in meta.d['enums']:
+        for n, v, dep in e['enumerators']:
+            if not dep:
+                req.add(('enumerator', f'{e["name"]}::{n}'))
+    for t, ents in meta.d['aliases']:
+        for a, _ in ents:
+            req.add(('alias', t, a))
+    req.add(('struct-node', 'as-leaf-or-unknown-member'))
+    for c in ('vff-direct-ok', 'vff-file-ok', 'direct-bad-element', 'direct-bad-size', 'file-missing', 'file-bad-row',
+              'file-bad-size'):
+        for fl in ('-from-engaged', '-from-disengaged'):
+            req.add(('vff', c + fl))
+    return req
 
 
 def nontrivial(op, out):
@@ -614,6 +884,7 @@ def nontrivial(op, out):
 
 def main(argv):
     tier = C.tier_from_argv(argv)
+    COVER.clear(); EXEMPT.clear(); FILL['on'] = True
     flags = ['-I' + gen_c18.cache_dir()]
     sources = [HARNESS_SRC] + C.repo_lib_sources(LIB_TUS)
     gen_err = None
@@ -655,6 +926,16 @@ def main(argv):
         if meta is not None:
             rep.cov['structs'] = len(meta.tops)
             rep.cov['leaves'] = sum(len(meta.leafinfo[t]) for t in meta.tops)
+            if pre:
+                req = required_coverage(meta)
+                missing = sorted(map(str, req - COVER))
+                rep.cov['required_coverage'] = {'required_classes': len(req), 'decided_by_the_monitor': len(req & COVER),
+                                                'never_exercised': missing[:40]}
+                if missing:
+                    broken.append(f'required coverage: {len(missing)} of {len(req)} classes were never exercised '
+                                  f'(and decided by the monitor) in this run: ' + '; '.join(missing[:6]))
+        rep.cov['exemptions'] = dict(EXEMPT)
+        FILL['on'] = False                  # the search runs (after a broken tie) do not count as coverage
 
     return C.standard_check(
         'C18', argv,
